@@ -201,7 +201,32 @@ def main():
             if SPEC.get("post_delay"):
                 time.sleep(SPEC["post_delay"])
         tasks = []
-        if wl["kind"] == "tok2":
+        if wl["kind"] == "threaddup":
+            # duplicates of one configuration submitted from other threads while the first submission is still
+            # inside ConfigInformation.submit (its user-defined task_outputs is slow)
+            from vpk_jobdir.tasks import SlowOut
+            outs, errs = {}, {}
+
+            def sub(name):
+                try:
+                    outs[name] = SlowOut(tag=wl["tags"][0], delay=wl.get("delay", 0.6), ctl=CTL).submit()
+                except BaseException as e:  # noqa
+                    errs[name] = type(e).__name__ + ": " + str(e)[:200]
+            ths = [threading.Thread(target=sub, args=("first",))]
+            for i, off in enumerate(wl["offsets"]):
+                ths.append(threading.Thread(target=sub, args=(f"dup{i}",)))
+            ths[0].start()
+            t0 = time.time()
+            for th, off in zip(ths[1:], wl["offsets"]):
+                time.sleep(max(0.0, off - (time.time() - t0)))
+                th.start()
+            for th in ths:
+                th.join(30)
+            result["thread_subs"] = [dict(name=k, is_first=(outs.get(k) is outs.get("first")), none=(outs.get(k) is None),
+                                          type=type(outs.get(k)).__name__, error=errs.get(k)) for k in sorted(set(outs) | set(errs))]
+            result["njobs"] = len(xp.scheduler.jobs)
+            phase("submitted")
+        elif wl["kind"] == "tok2":
             # two independent jobs sharing a counter token of total 1
             token = xp.workspace.connector.createtoken("vtoken", 1)
             for tg in wl["tags"]:
